@@ -326,6 +326,13 @@ def install_close_axioms(reg):
             r = elementwise(ex, lambda a, b: np_isclose(_num(a), _num(b), rtol, atol), [args[0], args[1]], "bool", node)
             _notify(ex, dict(kw), node)
             return r
+        num = (int, float, z3.ArithRef)
+        if len(args) == 2 and not kw and all(isinstance(a, num) and not isinstance(a, (bool, z3.BoolRef)) for a in args):
+            # two numbers, numpy's default tolerances: |a - b| <= 1e-8 + 1e-5*|b|  (a tolerance test, NOT equality)
+            a, b = (x if isinstance(x, z3.ArithRef) else z3.RealVal(x) for x in args)
+            a, b = (z3.ToReal(x) if x.is_int() else x for x in (a, b))
+            d = z3.If(a - b >= 0, a - b, b - a)
+            return d <= z3.RealVal("1e-8") + z3.RealVal("1e-5") * z3.If(b >= 0, b, -b)
         raise U("numpy.isclose in this form", node)
 
     @reg.axiom("numpy.allclose")
